@@ -1,11 +1,11 @@
-(* C12 — property theorems only (proved in C12_Proofs.v, C12_Proofs2.v, C12_Proofs3.v).
+(* C12 — property theorems only (proved in C12_Proofs.v, C12_Proofs2.v, C12_Proofs3.v, C12_Proofs4.v).
    Vocabulary: [serve et c path ae ops ret err] is the final state of net/http's response for
    one request to a site with configuration [c] (any subset of request_id, limits, log, rewrite,
    gzip, header, errors in its variants, status, mime, templates) whose innermost handler runs
    the script [ops] and returns [(ret, err)]; [cm] = status line sent, [sup] = number of
    superfluous WriteHeader calls that reached net/http, [view] = (garbled?, body after undoing
    the gzip coding announced by Content-Encoding); [et code] is DefaultErrorFunc's text. *)
-Require Import V.Lib V.C12_Model V.C12_Proofs V.C12_Proofs2 V.C12_Proofs3.
+Require Import V.Lib V.C12_Model V.C12_Proofs V.C12_Proofs2 V.C12_Proofs3 V.C12_Proofs4.
 Open Scope Z_scope.
 Local Open Scope string_scope.
 
@@ -549,4 +549,98 @@ Example C12_interleaved_compressed_requests_nonvacuous :
   fst (run_nest (fun _ => []) c sv (Nest a [Nest b []])) = map (serve_req (fun _ => []) c) [a; b] /\
   gz_pool (snd (run_nest (fun _ => []) c sv (Nest a [Nest b []])))
     = [bs "page of the first client"; bs "account data of the second client"].
+Proof. vm_compute. repeat split; reflexivity. Qed.
+
+(* ===================== the third pool: ResponseBuffer's copy buffers ===================== *)
+
+(* io.CopyBuffer through a buffer of ANY content (what an earlier request, a panicking one
+   included, copied through it): for every way the source delivers its bytes (every Read returns
+   at most len(buf) bytes) the writer receives exactly the bytes of the source, and the buffer goes
+   back to the pool with its length unchanged. *)
+Theorem C12_copy_buffer_exact :
+  forall reads buf,
+  forallb (fun ch => Nat.leb (length ch) (length buf)) reads = true ->
+  fst (copy_buffer buf reads) = concat reads /\ length (snd (copy_buffer buf reads)) = length buf.
+Proof. exact copy_buffer_exact. Qed.
+Print Assumptions C12_copy_buffer_exact.
+
+(* the buffers ARE dirty, and never reset: it is only the buf[:nr] discipline that keeps the bytes of
+   an earlier request out - handing the writer the whole buffer would leak them *)
+Theorem C12_copy_buffer_whole_refuted :
+  exists buf reads,
+  forallb (fun ch => Nat.leb (length ch) (length buf)) reads = true /\
+  fst (copy_buffer_whole buf reads) <> concat reads /\
+  snd (copy_buffer (bs "........") [bs "secret"]) = bs "secret..".
+Proof.
+  exists (bs "earlier!"), [bs "new"]. split; [reflexivity|]. split; [|reflexivity].
+  vm_compute. discriminate.
+Qed.
+Print Assumptions C12_copy_buffer_whole_refuted.
+
+(* The server with its THREE pools (gzip writers, templates' buffers, copy buffers): for every
+   initial content of the three pools (copy buffers of the pool's one size L, filled with
+   anything), every sequence of requests - any of them panicking at any point after any writes
+   and copies, their copies reading their sources in any chunks - the response to each request is
+   the response to that request served alone by a fresh server, its copies being plain writes of
+   their sources. *)
+Theorem C12_three_pools_independent :
+  forall et c L fresh qs sv,
+  length fresh = L -> pool_len_ok L (cp_pool sv) = true -> forallb (creq_fits L) qs = true ->
+  run_hist3 et c fresh sv qs = map (fun q => serve_req et c (creq_plain q)) qs.
+Proof. exact three_pools_independent. Qed.
+Print Assumptions C12_three_pools_independent.
+
+(* request k+1 after ANY history, judged alone *)
+Theorem C12_three_pools_next_request_unaffected :
+  forall et c L fresh sv hist q,
+  length fresh = L -> pool_len_ok L (cp_pool sv) = true -> forallb (creq_fits L) hist = true -> creq_fits L q = true ->
+  fst (serve_srv3 et c fresh (srv3_after et c fresh sv hist) q) = serve_req et c (creq_plain q).
+Proof. exact three_pools_next. Qed.
+Print Assumptions C12_three_pools_next_request_unaffected.
+
+(* request 1 copies through the pooled buffer and panics after the partial write; its bytes stay in
+   all three pools; request 2 (a shorter copy) is answered as if alone *)
+Example C12_three_pools_independent_nonvacuous :
+  let c := {| c_reqid := false; c_limits := false; c_log := true; c_rewrite := false; c_gzip := true; c_header := false;
+              c_errors := ENone; c_redir := false; c_status := None; c_mime := false; c_internal := false; c_templates := true |} in
+  let q1 := {| k_path := bs "/x.html"; k_ae := true; k_blen := 0%N; k_rd := None;
+               k_ops := [CCopy [bs "left beh"; bs "ind"]; CO (OPanic PString)]; k_ret := 0; k_err := false |} in
+  let q2 := {| k_path := bs "/x.html"; k_ae := true; k_blen := 0%N; k_rd := None;
+               k_ops := [CCopy [bs "hi"]]; k_ret := 0; k_err := false |} in
+  let sv := {| s_two := srv0; cp_pool := [bs "@@@@@@@@"] |} in
+  let fresh := bs "00000000" in
+  length fresh = 8%nat /\ pool_len_ok 8 (cp_pool sv) = true /\ forallb (creq_fits 8) [q1; q2] = true /\
+  cp_pool (srv3_after (fun _ => []) c fresh sv [q1]) = [bs "indt beh"] /\
+  buf_pool (s_two (srv3_after (fun _ => []) c fresh sv [q1])) = [bs "left behind"] /\
+  map view (run_hist3 std_errtext c fresh sv [q1; q2]) =
+    [(false, bs "500 Internal Server Error" ++ [10%N]); (false, bs "hi")].
+Proof. vm_compute. repeat split; reflexivity. Qed.
+
+(* ===================== the access log ===================== *)
+
+(* log's ResponseRecorder and net/http's response see the same calls. For EVERY sequence of
+   WriteHeader (200..999) / Write / Flush calls that reaches the recorder: when net/http reports no
+   superfluous WriteHeader, the status the access log prints is the status the client received.
+   With C12_panic_before_write_gets_500 (status 500, no superfluous WriteHeader, for every
+   configuration): a panic before any write is logged as 500. *)
+Theorem C12_access_log_status_is_client_status :
+  forall ks,
+  forallb ccall_ok ks = true ->
+  sup (fold_left conn_step ks st0) = 0%nat ->
+  r_status (fold_left rec_step ks recd0) = client_status (fold_left conn_step ks st0).
+Proof. intros ks Hk H0. exact (recorder_logs_client_status ks st0 recd0 Hk rec_inv0 H0). Qed.
+Print Assumptions C12_access_log_status_is_client_status.
+
+(* without the hypothesis the two differ: Flush (commits 200, not noted by the recorder), then
+   WriteHeader(500): the client has 200, the log says 500 *)
+Theorem C12_access_log_status_refuted :
+  exists ks, forallb ccall_ok ks = true /\
+  r_status (fold_left rec_step ks recd0) <> client_status (fold_left conn_step ks st0).
+Proof. exists [KFl; KWh 500]. split; [reflexivity|]. vm_compute. discriminate. Qed.
+Print Assumptions C12_access_log_status_refuted.
+
+Example C12_access_log_status_nonvacuous :
+  let ks := [KWh 500; KWr (Raw (bs "500 Internal Server Error"))] in
+  forallb ccall_ok ks = true /\ sup (fold_left conn_step ks st0) = 0%nat /\
+  r_status (fold_left rec_step ks recd0) = 500.
 Proof. vm_compute. repeat split; reflexivity. Qed.
